@@ -2,14 +2,61 @@
 NOTES = ("Contract-based deductive verification with CBMC code contracts on the real sources; see DESIGN.md. "
          "exit 0 = all obligations discharged, exit 1 = VIOLATION, exit 2 = undecided (tool limit / time-out / broken anchor).")
 NOT_CLAIMED = {
- "C07": "2-run hyperproperty (same per-client projection under every interleaving): contracts decide only its write-frame part, which is checked inside the C01-C06/C10 jobs ('other clients' records untouched'); read-independence has no CBMC contract form (no reads clause) - see DESIGN 5 C07 / 8",
+
 }
 _IAUTH_NOTE = ("callees are replaced by their executable contracts (spec/iauth_model.h: assert precondition, perform the specified effect on the request and the "
                "ghost log) and each contract is discharged on the real function in its own job; set.c is used through its sorted-map contract (spec/set_model.h), "
                "discharged for the real splay tree in C19 up to N elements; libevent, logging and stdio by contract (stubs/env_iauth.c); histories are covered by "
                "induction over the request invariant INV (DESIGN section 4), not by enumeration. No native replay driver for protocol-step obligations: the replay "
                "file carries the counterexample state; defects found were reproduced on the daemon with the histories under findings/.")
+_CFG_NOTE = ("the real config.c / log.c / module.c are included verbatim in the harness TU; set.c through its sorted-map contract (C19); longjmp never returns and "
+             "setjmp is modelled by its two kinds of return; allocators never fail (A4); stdio/libevent/loader by contract. No native replay drivers for these jobs; "
+             "defects found were demonstrated natively or on the daemon (findings/).")
 CLAIMS = {
+ "C07": dict(
+  text="C07 is a 2-run hyperproperty. What contracts decide, and what this check proves: every step taken for one client (data handlers, reply handler, query builder, "
+       "registration/disconnect/announcement) leaves every OTHER request in the table, and every service record other than the answering one, untouched, finds "
+       "requests only by their own id, and emits nothing that names another client. Together with C19 (lookup returns the element with that key) this is the "
+       "'touches only that record' mechanism. NOT proved: that the emitted text is independent of shared counters - CBMC has no reads clause.",
+  design_ref="§5 C07, §8", note=_IAUTH_NOTE, technique="CBMC per-function frame postconditions over two requests / several services (write-frame half of non-interference)"),
+ "C17": dict(
+  text="iauth_xquery_services_changed + config_service + unref are executed by the verifier for every section of 0-2 services and every previous table of 0-2 slots "
+       "(holes, stale, still-referenced entries): afterwards exactly the validly named services are configured, with the new protocol, whatever the table held before "
+       "(== a fresh start). The merge-side clause - an in-place edit below a section reaching the section hook - is a recorded finding (F13), see known_findings.json.",
+  design_ref="§5 C17", note=_IAUTH_NOTE + " Rule-table rebuild (iauth_class_conf_changed) and the merge walk of conf_replace_value are not under contract.",
+  technique="CBMC exhaustive concrete enumeration of small (section, previous table) pairs on the real functions"),
+ "C14": dict(
+  text="conf_read's control flow is proved for every error return of the parse phase (any longjmp code, any scratch-tree state): the merge into the live tree is not "
+       "called, no hook runs, the live root is untouched, the error is reported; on success the merge runs exactly once and only after the last entry was parsed. "
+       "The tokenizers conf_parse_whitespace / conf_parse_string are proved memory-safe with the cursor inside the buffer for EVERY byte buffer up to the stated length.",
+  design_ref="§5 C14", note=_CFG_NOTE + " Tokenizer bound: 6-8 bytes (bounded, hence model_checking); the frame of conf_parse_entry itself is not under contract - the 'parse phase cannot "
+       "touch the live tree' clause rests on conf_root not being reachable from it (static fact) plus the conf_read proof.",
+  technique="CBMC harness proofs on the real functions; setjmp/longjmp by contract"),
+ "C15": dict(
+  text="Per node kind: conf_parse_string_value keeps/updates the typed value and calls the hook exactly when the effective value changes; conf_set_string_list_value makes the "
+       "list equal to the new one (also when it shrinks to a prefix or to empty) and notifies exactly when it differs; a moved host/service pair stays valid after the "
+       "scratch tree is released (single ownership); conf_read merges once on success.",
+  design_ref="§5 C15", note=_CFG_NOTE + " The ordered merge of two object nodes (conf_replace_value, CONF_OBJECT) is not yet under contract; registration-order independence not decided.",
+  technique="CBMC harness proofs per node kind with hook counters"),
+ "C16": dict(
+  text="Typed parsers against reference readings written from the property: booleans by keyword, intervals and volumes as the sum of their unit components, 'parsable' exactly "
+       "for well-formed texts (every text up to 7 bytes); an unparsable typed value leaves the previous value in force without notification; quoted strings without escapes "
+       "are read back byte for byte and end at their closing quote; white space and comments are skipped by the tokenizer (every buffer up to the bound).",
+  design_ref="§5 C16", note=_CFG_NOTE + " The entry-level grammar clause (every admissible rendering of every tree; ';'/newline/'}' adjacency; repeated keys) is NOT decided by this technique "
+       "here: a whole-parser run does not get through symbolic execution (DESIGN 2) and conf_parse_entry is not under contract. Escapes inside quoted strings: memory safety only.",
+  technique="CBMC harness proofs of the value parsers against reference readings"),
+ "C18": dict(
+  text="log_parse_type_sevset is executed by the verifier on EVERY expression of one or two items over all six operators and seven names (case variants, unknown word), "
+       "plus '*' and the dot-less form - 1808 cases, exhaustive for that grammar - and yields exactly the mathematical severity set, or 'ignored as a whole'; log_vmessage "
+       "is proved to call each destination of the facility and of '*' exactly once with the right attribution and to write to stdout only in debug mode.",
+  design_ref="§5 C18", note=_CFG_NOTE + " log_rescan_conf (routing after a reload) is not under contract; line completeness rests on log_file_log's single fprintf (stdio trusted).",
+  technique="CBMC: exhaustive concrete enumeration of the expression grammar + per-function proof of the fan-out"),
+ "C20": dict(
+  text="The real module.c is run from module_load_list to module_close_all over EVERY dependency matrix of M stub modules (M=3 quick: 512 graphs incl. self loops and "
+       "cycles; M=4 thorough) and every listing of one or two modules: each needed module constructed once, dependencies fully constructed first, post-init once and "
+       "after its dependencies (also along two paths), destructors dependents-first; cyclic or unloadable graphs make start-up fail before any cycle member is post-initialised.",
+  design_ref="§5 C20", note=_CFG_NOTE + " The loader is a model (S4): constructors call the real module_depends. Module table = the set contract instantiated for the key universe m0..m3.",
+  technique="CBMC bounded harness over a symbolic dependency matrix on the real module.c"),
  "C04": dict(
   text="iauth_routing o iauth_validate_request is proved to find exactly the instance (id, serial) the tag was issued for and nobody for a stale serial or unknown id "
        "(all ids/serials symbolic); every tag text up to 19 bytes yields the live request or NULL without memory errors; the reply handler is proved to have an "
